@@ -34,8 +34,8 @@ ASSUMPTIONS = [
 SHARDS = {"quick": 16, "thorough": 16}
 HASHSEEDS = ["0", "1", "random", "4242"]
 MINIMUMS = {
-    "quick": {"distinct_nontrivial": 400, "ids_compared": 50000, "sealed_cyclic_orders": 400, "pinned_checked": 100, "cross_keys_compared": 40, "submit_variants": 100, "modify_histories": 500},
-    "thorough": {"distinct_nontrivial": 10000, "ids_compared": 1500000, "sealed_cyclic_orders": 5000, "pinned_checked": 100, "cross_keys_compared": 40, "submit_variants": 3000, "modify_histories": 15000},
+    "quick": {"distinct_nontrivial": 400, "ids_compared": 50000, "sealed_cyclic_orders": 400, "pinned_checked": 100, "cross_keys_compared": 40, "submit_variants": 100, "modify_histories": 500, "modify_seal_histories": 400},
+    "thorough": {"distinct_nontrivial": 10000, "ids_compared": 1500000, "sealed_cyclic_orders": 5000, "pinned_checked": 100, "cross_keys_compared": 40, "submit_variants": 3000, "modify_histories": 15000, "modify_seal_histories": 10000},
 }
 N = {"quick": 1600, "thorough": 48000}
 TIMEOUT = {"quick": 900, "thorough": 10800}
@@ -134,6 +134,25 @@ def explore(ctx, recipe, rng, other=None):
             compare(ctx, r8, b, ref8, order, "request-modify-request", sh8)
 
         run_history(ctx, recipe, sh, ref, "request-modify-request", v8)
+
+        # V9 identifiers requested, an unsealed node modified, then the graph is sealed WITHOUT asking again in between:
+        # what was computed for the former content must not become the sealed node's identifier
+        def v9(b):
+            order = real_nids(b)
+            rng.shuffle(order)
+            compare(ctx, recipe, b, ref, order, "request-modify-seal/before", sh)
+            builder.step(["set", nid8, pn8, newv], b)
+            try:
+                seal(b, root)
+                if nid8 in b.real and not b.real[nid8].__xpm__._sealed:
+                    seal(b, nid8)  # not reachable from the root (e.g. behind a task boundary): sealed on its own
+            except RecursionError:
+                raise
+            ctx.count("modify_seal_histories")
+            rng.shuffle(order)
+            compare(ctx, r8, b, ref8, order, "request-modify-seal", sh8)
+
+        run_history(ctx, recipe, sh, ref, "request-modify-seal", v9)
 
     if not is_task:
         # V3 seal the root first, then any request order, twice
